@@ -392,6 +392,32 @@ func WrapDnsResponseNull(msg *dns.Msg, data []byte, domain string) error {
 	return nil
 }
 
+// Unescape reverts the presentation-format escaping (\DDD and \X) that the DNS library applies to
+// names and TXT strings when it unpacks a message.
+func Unescape(data string) []byte {
+	res := make([]byte, 0, len(data))
+	for len(data) > 0 {
+		c := data[0]
+		if c != '\\' {
+			res = append(res, c)
+			data = data[1:]
+		} else if len(data) >= 4 && isDigit(data[1]) && isDigit(data[2]) && isDigit(data[3]) {
+			res = append(res, (data[1]-'0')*100+(data[2]-'0')*10+(data[3]-'0'))
+			data = data[4:]
+		} else if len(data) >= 2 {
+			res = append(res, data[1])
+			data = data[2:]
+		} else {
+			data = data[1:]
+		}
+	}
+	return res
+}
+
+func isDigit(b byte) bool {
+	return b >= '0' && b <= '9'
+}
+
 // UnwrapDnsResponse will decode the DNS message and return the bytes in the response
 func UnwrapDnsResponse(q *dns.Msg, domain string) []byte {
 	resp := make([]byte, 0)
@@ -410,22 +436,22 @@ func UnwrapDnsResponse(q *dns.Msg, domain string) []byte {
 			// Remove first two bytes
 			resp = append(resp, []byte(v.Data.String()[2:])...)
 		case *dns.TXT:
-			resp = append(resp, []byte(strings.Join(v.Txt, "")[2:])...)
+			resp = append(resp, Unescape(strings.Join(v.Txt, ""))[2:]...)
 		case *dns.MX:
 			data := v.Mx                             // Nothing to remove, Preference takes care of it
 			data = data[0 : len(data)-len(domain)-2] // remove domain
 			data = Undotify(data)                    // Remove dots
-			resp = append(resp, data...)
+			resp = append(resp, Unescape(data)...)
 		case *dns.SRV:
 			data := v.Target                         // Nothing to remove, Priority takes care of it
 			data = data[0 : len(data)-len(domain)-2] // remove domain
 			data = Undotify(data)                    // Remove dots
-			resp = append(resp, data...)
+			resp = append(resp, Unescape(data)...)
 		case *dns.CNAME:
 			data := v.Target[2:]                     // Remove first two characters
 			data = data[0 : len(data)-len(domain)-2] // remove domain
 			data = Undotify(data)                    // Remove dots
-			resp = append(resp, data...)
+			resp = append(resp, Unescape(data)...)
 		case *dns.AAAA:
 			// Remove first two bytes
 			resp = append(resp, v.AAAA[2:]...)
